@@ -15,13 +15,19 @@ NOT_BUILT_REASON = "check not built yet in this session (planned, see DESIGN.md 
 
 
 def main():
+    # only checks reviewed by the lead are registered
+    ready = set(json.load(open(os.path.join(ROOT, "tools", "ready.json"))))
     checks = []
     claimed = set()
     for path in sorted(glob.glob(os.path.join(ROOT, "checks", "c[0-9][0-9]_*.py"))):
+        if os.path.basename(path)[:3].upper() not in ready:
+            continue
         mod = importlib.import_module("checks." + os.path.basename(path)[:-3])
         if getattr(mod, "DISABLED", False):
             continue
         pid = mod.ID
+        if pid not in ready:
+            continue
         claimed.add(pid)
         entry = {
             "property_id": pid,
